@@ -20,6 +20,47 @@ import (
 // FScale: float64 cells carry value * 2^24 (see lib/bqlu.py).
 const FScale = 1 << 24
 
+// Big / BigBase: the abstract int64 value Big + d (0 <= d < 2^20) stands for 2^53 + d, see lib/bqlu.py.
+const (
+	Big     = 1 << 29
+	BigBase = int64(1) << 53
+)
+
+// IntActual maps an abstract int64 cell value to the number it stands for.
+func IntActual(v int) int64 {
+	a := int64(v)
+	if a < 0 {
+		a = -a
+	}
+	if a < Big {
+		return int64(v)
+	}
+	x := BigBase + (a - Big)
+	if v < 0 {
+		return -x
+	}
+	return x
+}
+
+// IntAbstract is the inverse of IntActual; ok = false for numbers outside the universe's ranges.
+func IntAbstract(x int64) (int, bool) {
+	a := x
+	if a < 0 {
+		a = -a
+	}
+	switch {
+	case a >= 0 && a < Big:
+		return int(x), true
+	case a >= BigBase && a < BigBase+(1<<20):
+		v := int(Big + (a - BigBase))
+		if x < 0 {
+			v = -v
+		}
+		return v, true
+	}
+	return 0, false
+}
+
 type Cell struct {
 	K string `json:"k"`
 	V int    `json:"v"`
@@ -39,9 +80,10 @@ type U struct {
 		Anchor string `json:"anchor"`
 	} `json:"preds"`
 	Triples []struct {
-		S int  `json:"s"`
-		P int  `json:"p"`
-		O Cell `json:"o"`
+		S      int    `json:"s"`
+		P      int    `json:"p"`
+		O      Cell   `json:"o"`
+		Anchor string `json:"anchor"` // "" or another spelling (zone) of the predicate's anchor, for this triple only
 	} `json:"triples"`
 
 	times   []time.Time
@@ -100,7 +142,21 @@ func Load(path string) (*U, error) {
 		if err != nil {
 			return nil, err
 		}
-		tt, err := triple.New(u.nodes[t.S-1], u.preds[t.P-1], o)
+		pp := u.preds[t.P-1]
+		if t.Anchor != "" {
+			ta, err := time.Parse(time.RFC3339Nano, t.Anchor)
+			if err != nil {
+				return nil, err
+			}
+			e := u.Preds[t.P-1]
+			if !e.Tmp || !ta.Equal(u.times[e.N-1]) {
+				return nil, fmt.Errorf("triple anchor %s is not a spelling of the anchor of predicate %d", t.Anchor, t.P)
+			}
+			if pp, err = predicate.NewTemporal(e.ID, ta); err != nil {
+				return nil, err
+			}
+		}
+		tt, err := triple.New(u.nodes[t.S-1], pp, o)
 		if err != nil {
 			return nil, err
 		}
@@ -121,7 +177,7 @@ func (u *U) Object(c Cell) (*triple.Object, error) {
 	case "P":
 		return triple.NewPredicateObject(u.preds[c.V-1]), nil
 	case "I":
-		l, err := b.Build(literal.Int64, int64(c.V))
+		l, err := b.Build(literal.Int64, IntActual(c.V))
 		if err != nil {
 			return nil, err
 		}
@@ -214,8 +270,8 @@ func (u *U) LitCell(l *literal.Literal) Cell {
 	}
 	switch v := l.Interface().(type) {
 	case int64:
-		if l.Type() == literal.Int64 && v > -(1<<30) && v < (1<<30) {
-			return Cell{"I", int(v)}
+		if a, ok := IntAbstract(v); ok && l.Type() == literal.Int64 {
+			return Cell{"I", a}
 		}
 	case float64:
 		q := v * FScale
